@@ -95,6 +95,7 @@ type Exec struct {
 	noExpand       int
 	typeIDs        map[string]int
 	freshErrs      []*Term
+	isErrAxioms    bool
 	noOblige       int // >0: evaluating spec code; do not emit obligations
 }
 
@@ -361,7 +362,26 @@ func (ex *Exec) sentinelByName(name string) *Term {
 		ex.facts = append(ex.facts, ex.p.Not(ex.p.Eq(t, o)))
 	}
 	ex.assumptions["package-level error sentinels are constant, non-nil and pairwise distinct"] = true
+	ex.sentinelWrapsNothing(t)
 	return t
+}
+
+// sentinelWrapsNothing: errors.Is(sentinel, x) holds for x == sentinel only (a package-level sentinel is made by
+// errors.New / fmt.Errorf without %w, assumed), stated for every x so that it also works inside defined spec functions.
+func (ex *Exec) sentinelWrapsNothing(t *Term) {
+	p := ex.p
+	f := p.Func("isErr", []*Sort{IntSort, IntSort}, BoolSort)
+	sv := p.BoundVar("s!sent", IntSort)
+	ex.facts = append(ex.facts, p.Forall([]*Term{sv}, p.Eq(p.App(f, t, sv), p.Eq(sv, t)), []*Term{p.App(f, t, sv)}))
+	if !ex.isErrAxioms {
+		ex.isErrAxioms = true
+		ev := p.BoundVar("e!is", IntSort)
+		s2 := p.BoundVar("s!is", IntSort)
+		// errors.Is(nil, x) is false; errors.Is(e, e) is true for a non-nil e
+		ex.facts = append(ex.facts, p.Forall([]*Term{s2}, p.Not(p.App(f, p.Int(0), s2)), []*Term{p.App(f, p.Int(0), s2)}))
+		ex.facts = append(ex.facts, p.Forall([]*Term{ev}, p.Implies(p.Not(p.Eq(ev, p.Int(0))), p.App(f, ev, ev)), []*Term{p.App(f, ev, ev)}))
+	}
+	ex.assumptions["package-level error sentinels wrap nothing (errors.Is(sentinel, x) holds for x == sentinel only)"] = true
 }
 
 // ------------------------------------------------------------------ function body execution
